@@ -44,6 +44,13 @@ def tables():
     shapes = sorted(text(pr) for pr in prods if text(pr).split(" -> ")[0] in ("binary_expression", "expression", "assignment_expression", "assignment_op"))
     return {"rows": rows, "asg": asg, "productions": shapes, "precedence": [list(x) for x in parser.NslParser.precedence]}
 
+def _strip(d):
+    if isinstance(d, dict):
+        return {k: _strip(v) for k, v in d.items() if k not in ("loc", "locs")}
+    if isinstance(d, list):
+        return [_strip(x) for x in d]
+    return d
+
 def run(job):
     try:
         if job["k"] == "tables":
@@ -66,7 +73,22 @@ def run(job):
                 tree = get_parser().Parse(job["text"])
             m = astdump.module(tree)
             f = [x for x in m["items"] if x["k"] == "func"][0]
-            return {"body": f["body"], "illegal": out.getvalue().count("Illegal character")}
+            res = {"body": f["body"], "illegal": out.getvalue().count("Illegal character")}
+            # tree printer (BinaryExpression.__str__): the printed return expression, parsed again, is the same tree
+            try:
+                st = tree.GetFunctions()[0].GetBody().GetStatements()[0]
+                e0 = st.GetExpression()
+                printed = str(e0)
+                try:
+                    with contextlib.redirect_stdout(out), contextlib.redirect_stderr(out):
+                        t2 = get_parser().Parse("function f(int q)->int{ return %s; }" % printed)
+                    e2 = t2.GetFunctions()[0].GetBody().GetStatements()[0].GetExpression()
+                    res["reprint"] = {"printed": printed, "same": _strip(astdump.expr(e0)) == _strip(astdump.expr(e2))}
+                except BaseException as ex:
+                    res["reprint"] = {"printed": printed, "same": None, "why": type(ex).__name__}
+            except BaseException as ex:
+                res["reprint"] = {"printed": None, "same": None, "why": type(ex).__name__}
+            return res
     except SystemExit:
         return {"syntax_error": True}
     except BaseException as e:
